@@ -5,8 +5,8 @@ level0_max_files, failures (oversized batches fail in env.write after the enqueu
 failures of WAL writes / fsyncs fail env.write or the rotation inside env.apply), close() in the
 middle.  Liveness oracle on the implementation: every commit() and close() returns, no panic; the
 scheduler reports a hang when no actor can move (blocking primitives tracked from the events; a
-watchdog covers what is not tracked) with the seed and the trace.  Two directed schedules replay the
-Coq witnesses of `no_overflow_refuted` and `deadlock_free_refuted`.  Every trace is replayed through
+watchdog covers what is not tracked) with the seed and the trace.  Two directed regression schedules (the
+witnesses of the repaired findings F43 queue overflow and F44 lost flush wake-up) must end normally.  Every trace is replayed through
 the extracted LTS; small instances of the LTS are explored exhaustively (deadlocks, cycles of
 system steps, overflow) as a TEST of the statements."""
 from . import common as C
@@ -37,7 +37,7 @@ EXPLORE_THOROUGH = EXPLORE_QUICK + ["slots=3,permits=2,mem=2,cnts=1/1/1,rdrs=0,w
 
 
 def lost_wakeup_schedule():
-    """the schedule of the Coq witness `deadlock_free_refuted`: the flush task is delayed after its last
+    """regression schedule of finding F44 (repaired): the flush task is delayed after its last
     has_pending_immutables() check (running flag still set) while the committers rotate"""
     th = ["c:%d.4.-/%d.4.-/%d.4.-" % (3 * i, 3 * i + 1, 3 * i + 2) for i in range(4)] + ["x:end"]
     sizes = {i: (4, "") for i in range(12)}
@@ -45,8 +45,8 @@ def lost_wakeup_schedule():
                 threads="|".join(th), ncommit=12, nrdr=0, memlimit=2, l0limit=64, sizes=sizes, fail=None, kind="witness-lost-wakeup", idx=-2)
 
 
-CLASSES = {"queue_overflow_panic": "queue_overflow_failed_commits", "hang": "flush_wakeup_lost_hang",
-           "commit_never_returned": "flush_wakeup_lost_hang"}
+# classes of the two repaired findings (F43, F44): listed as `fixed` in known_findings.json, so an occurrence is a violation
+CLASSES = {"queue_overflow_panic": "queue_overflow_failed_commits"}
 
 
 def explore(ctx):
@@ -62,8 +62,6 @@ def explore(ctx):
     seen_cls = set()
     for cls, d, text in viol:
         k = CLASSES.get(cls, cls)
-        if cls in ("hang", "commit_never_returned") and "kind=witness-lost-wakeup" not in text and "stall.wait" not in text:
-            k = cls  # an unexplained hang is never taken for the known one
         if k in kf:
             res["known"].append(k + " — " + kf[k])
             if k not in seen_cls:
@@ -78,16 +76,19 @@ def explore(ctx):
                                          deadlock="none" if e.get("deadlock") == "-" else "FOUND",
                                          cycle_of_system_steps="none" if e.get("cycle") == "-" else "FOUND",
                                          safety="holds" if e.get("safe") == "-" else "FAILS",
-                                         overflow="none" if e.get("overflow") == "-" else "witness") for e in ex]
+                                         overflow="none" if e.get("overflow") == "-" else "FOUND") for e in ex]
         for e in ex:
             if e.get("safe", "-") != "-":
                 res["disagreements"].append("LTS exploration: safety checker fails on %s: %s" % (e["spec"], e.get("safe", "")[:300]))
-            if "rotate=1" not in e["spec"] and e.get("deadlock", "-") != "-":
-                res["disagreements"].append("LTS exploration: deadlock without rotation on %s: %s" % (e["spec"], e.get("deadlock", "")[:300]))
+            if e.get("deadlock", "-") != "-":
+                res["disagreements"].append("LTS exploration: deadlock on %s: %s" % (e["spec"], e.get("deadlock", "")[:300]))
             if e.get("cycle", "-") != "-":
                 res["disagreements"].append("LTS exploration: cycle of system steps on %s: %s" % (e["spec"], e.get("cycle", "")[:300]))
-            if "walfail=1" not in e["spec"] and "applyfail=1" not in e["spec"] and e.get("overflow", "-") != "-":
-                res["disagreements"].append("LTS exploration: overflow without failures on %s" % e["spec"])
+            if e.get("overflow", "-") != "-":
+                res["disagreements"].append("LTS exploration: more batches queued than permits on %s: %s" % (e["spec"], e.get("overflow", "")[:300]))
+    # with the repaired wake-up protocol the scheduler must never run out of eligible actors
+    if cov.get("forced", 0) and not any("hang" in v[0] for v in res["violations"]):
+        res["disagreements"].append("the scheduler found no eligible actor in %d episode(s) (forced grants) although every run completed" % cov["forced"])
     cov["evaluations"] = cov.get("schedules", 0)
     cov["distinct_nontrivial"] = cov.get("traces_validated", 0)
     cov["rule"] = ("every commit() and close() returns (no hang by the no-progress detector and watchdog, no missing result), no panic; "
